@@ -33,6 +33,10 @@ type c09gen struct {
 	wide   bool    // wide history: every operation draws a fresh year from the whole range
 	lastSx float64
 	jzBase int
+	exact  bool   // pair contention: the hot years are used exactly (no neighbours, no related keys)
+	hotK   string // util focus: the kind of helper this run concentrates on
+	hmH    int    // util focus: the time-of-day string this run concentrates on (hour+1, minute)
+	hmM    int
 }
 
 var focusKinds = map[string][]string{
@@ -49,6 +53,10 @@ var focusKinds = map[string][]string{
 
 func (g *c09gen) year() int {
 	r := g.r
+	if len(DictBounds) > 0 && r.Chance(0.10) {
+		// constants the library COMPARES with (as years, or Julian day numbers turned into years), and their neighbours
+		return clampYear(DictBounds[r.Intn(len(DictBounds))] + r.Pick([]int{-1, 0, 0, 1}))
+	}
 	if len(DictYears) > 0 && r.Chance(g.dictP) {
 		return DictYears[r.Intn(len(DictYears))]
 	}
@@ -76,11 +84,17 @@ func clampYear(y int) int {
 	return y
 }
 
+// relatedDeltas: distances between keys that a too-coarse cache key, a striped lock or a sharded table folds together
+var relatedDeltas = []int{12, 19, 60, 100, 400, 1000, 1024, 16, 64, 128, 256}
+
 func (g *c09gen) hotYear() int {
+	if g.exact {
+		return clampYear(g.hot[g.r.Intn(len(g.hot))])
+	}
 	y := g.hot[g.r.Intn(len(g.hot))] + g.r.Pick([]int{-1, 0, 0, 0, 0, 1})
 	if g.r.Chance(0.12) {
 		// related keys: the periods a too-coarse cache key is likely to fold together
-		d := g.r.Pick([]int{12, 19, 60, 100, 400, 1000, 1024})
+		d := g.r.Pick(relatedDeltas)
 		if g.r.Chance(0.5) {
 			d = -d
 		}
@@ -90,6 +104,9 @@ func (g *c09gen) hotYear() int {
 }
 
 func (g *c09gen) anyYear() int {
+	if g.exact && g.r.Chance(0.9) {
+		return g.hotYear()
+	}
 	if g.wide {
 		if g.r.Chance(0.35) {
 			return g.r.Range(1, 9998)
@@ -168,6 +185,15 @@ func (g *c09gen) baseOp() ops.Op {
 	k := kinds[r.Weighted(w)]
 	if fk, ok := focusKinds[g.focus]; ok && r.Chance(0.65) {
 		k = fk[r.Intn(len(fk))]
+		if g.focus == "util" {
+			// one helper gets half of the calls of the run, so that its neighbouring and colliding arguments meet
+			if g.hotK == "" {
+				g.hotK = r.PickS([]string{"su_days", "su_between", "solar_rel", "lu_day", "lu_xun", "lu_xun", "sx", "foto_xiu"})
+			}
+			if r.Chance(0.5) {
+				k = g.hotK
+			}
+		}
 	}
 	if g.wide && r.Chance(0.7) {
 		// wide histories are dense sequences of calls that each build exactly one year table
@@ -296,7 +322,36 @@ func (g *c09gen) baseOp() ops.Op {
 		}
 		return ops.Op{K: k, A: []int{r.Range(1, 12)}, S: []string{jiaZi(r.Intn(60)), jiaZi(r.Intn(60)), jiaZi(r.Intn(60))}}
 	case "lu_xun":
-		return ops.Op{K: k, S: []string{jiaZi(r.Intn(60)), fmt.Sprintf("%02d:%02d", r.Intn(24), r.Intn(60))}}
+		hm := fmt.Sprintf("%02d:%02d", r.Intn(24), r.Intn(60))
+		malformed := []string{"", "24:00", "25:99", "3:15", "03:15 ", " 3:15", "03-15", "0315", "+3:15", "03:60", "-1:30", "23:59:59", "ab:cd", "１２:００"}
+		if g.focus == "util" {
+			// narrow domain: one time of day per run, its neighbours, and other spellings of the same minute count
+			// ("02:75" for 03:15, "04:-45"), which a memo keyed by arithmetic on the digits folds together
+			if g.hmH == 0 {
+				g.hmH, g.hmM = 1+r.Intn(24), r.Intn(60)
+			}
+			h, m := g.hmH-1, g.hmM
+			switch r.Weighted([]int{30, 12, 22, 6, 10, 20}) {
+			case 0:
+				hm = fmt.Sprintf("%02d:%02d", h, m)
+			case 1:
+				m2 := m + r.Pick([]int{-1, 1})
+				if m2 >= 0 && m2 < 60 {
+					hm = fmt.Sprintf("%02d:%02d", h, m2)
+				}
+			case 2:
+				if h >= 1 && m+60 < 100 {
+					hm = fmt.Sprintf("%02d:%02d", h-1, m+60)
+				}
+			case 3:
+				hm = fmt.Sprintf("%02d:%d", h+1, m-60)
+			case 4:
+				hm = r.PickS(malformed)
+			}
+		} else if r.Chance(0.1) {
+			hm = r.PickS(malformed)
+		}
+		return ops.Op{K: k, S: []string{jiaZi(r.Intn(60)), hm}}
 	case "sx":
 		y := g.anyYear()
 		jd := float64(y-2000)*365.2422 + float64(r.Intn(365)) + float64(r.Intn(1000))/1000
@@ -433,6 +488,10 @@ func (g *c09gen) wrap(op ops.Op) ops.Op {
 // like): the years at which the code itself behaves specially. The driver extracts them from /repo's working tree.
 var DictYears []int
 
+// DictBounds are the integer constants that the library compares a value with (comparison operands and case labels):
+// those between 5 and 9999 as they are, those in the range of Julian day numbers converted to the civil year they fall in.
+var DictBounds []int
+
 // Tier is set by the driver; the thorough tier also draws larger runs (more tasks, longer scripts).
 var Tier = "quick"
 
@@ -463,6 +522,18 @@ func C09(seed uint64, run int) *spec.Spec {
 		if g.focus == "lmonth" && r.Chance(0.5) {
 			g.hot[0] = knownLeap[r.Intn(len(knownLeap))][0]
 		}
+	}
+	if kind != 0 && !g.wide && r.Chance(0.05) {
+		// pair contention: several tasks build the tables of exactly two related years at the same time (what a striped
+		// lock, a sharded cache or per-key wait queues have to keep apart)
+		y := clampYear(g.year())
+		d := r.Pick(relatedDeltas)
+		if y+d > 9998 {
+			d = -d
+		}
+		g.hot = []int{y, clampYear(y + d)}
+		g.exact = true
+		g.focus = r.PickS([]string{"lyear", "lyear", "lunar", "lmonth"})
 	}
 	f := &s.Config.Faults
 	if kind == 2 {
@@ -515,6 +586,15 @@ func C09(seed uint64, run int) *spec.Spec {
 		h, mi, sec := g.hms()
 		y0 := y
 		sweepDown := r.Chance(0.5)
+		if sweep == "lyear" {
+			// the chosen year (often a constant of the library) lies somewhere inside the sweep, not at its start
+			k := r.Intn(nUniv)
+			if sweepDown {
+				y0 = clampYear(y + k)
+			} else {
+				y0 = clampYear(y - k)
+			}
+		}
 		if sweep == "lmonth" && r.Chance(0.5) {
 			l := knownLeap[r.Intn(len(knownLeap))]
 			y, m = l[0]-1, r.Range(6, 12)
